@@ -644,5 +644,12 @@ def bounds_excluded(ctx: Context, rule: str, qualname: str, what: str) -> None:
                                    (isinstance(x, ast.Call) and isinstance(x.func, ast.Attribute) and x.func.attr in ('append', 'add'))]
                         if not earlier:
                             ok, why = True, f"loop skips `{name.id} in {b}` first"
+                if not ok:
+                    # the same exclusion written as nesting: everything the loop selects is selected where `name in b` is known not to hold
+                    from .common import facts as _facts
+                    picks = [x for s_ in lp.body for x in ast.walk(s_) if isinstance(x, (ast.Return, ast.Yield)) or
+                             (isinstance(x, ast.Call) and isinstance(x.func, ast.Attribute) and x.func.attr in ('append', 'add'))]
+                    if picks and all((f"{name.id} in {b}", False) in _facts(ctx, fi, x, expand=False) for x in picks):
+                        ok, why = True, f"every selection of the loop is made under `{name.id} not in {b}`"
     ctx.check(rule, ok, f"{what}: a variable that another variable names in its `bounds` attribute is never selected, whatever attributes or encoding it carries", fi,
               helper[0] if helper else fi.node, construct=why)
